@@ -55,12 +55,46 @@ def expFx (r : Int) (terms : Nat) : Int :=
     | k + 1, j, term, acc => go k (j + 1) (fxMul term r / ((j + 1 : Nat) : Int)) (acc + term)
   go terms 0 fxOne 0
 
-/-- exponential of a rational; arguments below −1500 give 0 (below every double, DBL_MIN included) -/
+/-- ln 2 in fixed point -/
+def ln2Fx : Int := toFx ln2
+
+/-- exponential of a rational; arguments below −1500 give 0 (below every double, DBL_MIN included).
+    The argument is taken to fixed point once (absolute error 2⁻¹²⁸, i.e. relative error 2⁻¹²⁸ in the result), the
+    reduction `x = k·ln 2 + r` and the series run on integers, the final scaling by `2ᵏ` is exact. -/
 def expR (x : Rat) : Rat :=
   if x < -1500 then 0 else
-  let k : Int := (x / ln2).floor
-  let r := x - (k : Rat) * ln2           -- in [0, ln 2)
-  let s := ofFx (expFx (toFx r) 36)
-  s * (2 : Rat) ^ k                       -- exact scaling: the relative precision of `s` (2⁻¹²⁸) is kept for tiny values
+  let xf := toFx x
+  let k : Int := xf / ln2Fx              -- Int division rounds toward zero for negative `xf`: `r` may be in (−ln 2, ln 2)
+  let r := xf - k * ln2Fx
+  let s := ofFx (expFx r 40)
+  s * (2 : Rat) ^ k
+
+/-- ⌊√n⌋ (Newton iteration from above) -/
+def isqrt (n : Nat) : Nat :=
+  if n = 0 then 0 else
+  let rec go : Nat → Nat → Nat
+    | 0, x => x
+    | k + 1, x =>
+      let y := (x + n / x) / 2
+      if y < x then go k y else x
+  go 400 (2 ^ (Nat.log2 n / 2 + 1))
+
+/-- square root of a non-negative rational: exact when numerator and denominator are perfect squares, otherwise the
+    value rounded down to relative precision 2⁻¹²⁸ (`0` for negative arguments: callers never ask) -/
+def sqrtR (x : Rat) : Rat :=
+  if x ≤ 0 then 0 else
+  let n := x.num.toNat
+  let d := x.den
+  let sn := isqrt n
+  let sd := isqrt d
+  if sn * sn = n ∧ sd * sd = d then (sn : Rat) / (sd : Rat)
+  else
+    -- √(n/d) = √(n·d)/d, scaled so that the integer root carries 128 extra bits plus the size of the argument
+    let e := 128 + Nat.log2 d + 1
+    ((isqrt (n * d * 4 ^ e) : Nat) : Rat) / ((d * 2 ^ e : Nat) : Rat)
+
+/-- was `sqrtR x` exact? -/
+def sqrtExact (x : Rat) : Bool :=
+  decide (x ≤ 0) || (let n := x.num.toNat; let d := x.den; decide (isqrt n * isqrt n = n) && decide (isqrt d * isqrt d = d))
 
 end TapkeeVerif.RatFn
